@@ -15,12 +15,50 @@ def run(ctx):
     ctx.prove('props/C18.v')
     L.lockstep(ctx, [L.mon_c18])
     L.reg_sweep(ctx, L.REG_KINDS['C18'])
+    panic_then_mutate(ctx)
     ctx.coverage['rule'] = ('lock-step scenarios incl. 2-3 concurrent mutators with deliveries; after each schedule every unfinished activity is stepped '
                             'round-robin: monitor = an activity that never returns / rounds without progress (deadlock, livelock)')
 
 
+def panic_then_mutate(ctx):
+    """"a panic in one mutator never wedges later ones", for the iterator's add / drop calls (they make their registry calls
+    under the instance's own lock): C12's fixed histories - rejected additions by error and by the documented, caught panic,
+    followed by further add_signal calls, handle clones and the drops - must all run to their end"""
+    if not ctx.harness(['p_c12']):
+        return
+    import c12
+    hs = c12.fixed_histories()
+    try:
+        outs = c12.run_probe(hs)
+    except RuntimeError as e:
+        ctx.correspondence('iterator add/drop after a panicking add_signal: probe ran', False, str(e)[-600:])
+        return
+    n = 0
+    for h, (recs, end) in zip(hs, outs):
+        ctx.evaluations += len(h)
+        if end == 'timeout':
+            n += 1
+            if n <= 2:
+                k = len(recs)
+                ctx.violation({'monitor': 'mutator-after-panic', 'op': k},
+                              'an iterator call did not return (6 s) in a history with a caught panicking add_signal before it: operation #%d %s   [history: %s]'
+                              % (k, h[k] if k < len(h) else '(end)', c12.describe(h)),
+                              {'history': h, 'replay': './check C12 --replay <this file>'})
+        elif end != 'skipped':
+            ctx.traces += 1
+    ctx.coverage['panic_then_mutate_histories'] = len(hs)
+
+
 def replay(ctx, path):
     case = json.load(open(path))
+    if case.get('case', {}).get('history'):
+        import c12
+        ctx.harness(['p_c12'])
+        (recs, end), = c12.run_probe([case['case']['history']])
+        print(c12.describe(case['case']['history']), '->', end)
+        if end == 'timeout':
+            print('REPRODUCED: an iterator call after a caught panicking add_signal did not return')
+        return 1 if end == 'timeout' else 0
     sc = case.get('case', {}).get('scenario')
     if case.get('case', {}).get('reg_sweep'):
         return L.reg_replay(ctx, case['case'], L.REG_KINDS['C18'])
